@@ -183,6 +183,11 @@ func expandFault(ok, ft *sys, prefix []int) (r freply) {
 	plen := len(ok.trace)
 	ok.invoked = map[avfs.FnVFS]bool{}
 
+	var applicable []int
+
+	fulls := map[int][]consRec{}
+	prefixTrace := append([]consRec{}, ok.trace...)
+
 	for o := range ok.ops {
 		ok.trace = ok.trace[:plen]
 		ok.nsteps = len(prefix)
@@ -220,8 +225,12 @@ func expandFault(ok, ft *sys, prefix []int) (r freply) {
 			r.Succ = append(r.Succ, fsucc{Op: o, Key: sr.Key, Broken: sr.Broken})
 		}
 
-		// every single-fault plan of this history
-		for k := 0; k < len(full); k++ {
+		applicable = append(applicable, o)
+		fulls[o] = full
+
+		// every single-fault plan of this history whose failing consultation
+		// lies in the last call (those inside the prefix: pass B below)
+		for k := plen; k < len(full); k++ {
 			for _, en := range errNames {
 				if err := ft.resetFault(k, en); err != nil {
 					r.Err = err.Error()
@@ -306,6 +315,133 @@ func expandFault(ok, ft *sys, prefix []int) (r freply) {
 					fsx.DiffLines(strings.Split(baseKey, "\n"), strings.Split(k, "\n")))
 
 				return
+			}
+		}
+	}
+
+	// Pass B: the failing consultation lies inside the prefix. The faulted
+	// prefix is executed once per (k, E) and every applicable last letter is
+	// applied to it; the instance is rebuilt (fresh + faulted prefix) whenever
+	// a letter changed the state, exactly as engine A does, so each history
+	// still runs from a state identical to the one a fresh run would reach.
+	type pv struct {
+		sig    map[string]string
+		detail string
+	}
+
+	for k := 0; k < plen; k++ {
+		for _, en := range errNames {
+			var (
+				presults []string
+				poisoned bool
+			)
+
+			setup := func(collect *[]pv) error {
+				presults, poisoned = presults[:0], false
+
+				if err := ft.resetFault(k, en); err != nil {
+					return err
+				}
+
+				for _, p := range prefix {
+					fr := ft.Step(p)
+					presults = append(presults, ft.lastRender)
+
+					if collect != nil {
+						for _, v := range fr.Viols {
+							*collect = append(*collect, pv{v.Sig, v.Detail})
+						}
+					}
+
+					if fr.Rebuild {
+						poisoned = true
+
+						break
+					}
+				}
+
+				if !ft.fired || len(ft.trace) <= k || !sameCons(ft.trace[:k+1], prefixTrace[:k+1]) {
+					return fmt.Errorf("replay diverged: prefix %v plan k=%d %s: fired=%v trace %v, fault-free trace %v",
+						histStrings(ok, prefix), k, en, ft.fired, traceStrings(ft.trace), traceStrings(prefixTrace))
+				}
+
+				return nil
+			}
+
+			var pviols []pv
+
+			if err := setup(&pviols); err != nil {
+				r.Err = err.Error()
+
+				return
+			}
+
+			plan := map[string]any{"k": k, "fn": prefixTrace[k].Fn.String(), "params": prefixTrace[k].P, "during_call": prefixTrace[k].Call, "part": prefixTrace[k].Part, "err": en}
+			class := ft.faultClass
+
+			for _, v := range pviols {
+				v := v
+				pres := append([]string{}, presults...)
+				book.add(v.sig, func() any {
+					return map[string]any{
+						"system": ok.baseName, "plan": "fault", "history": histStrings(ok, prefix), "fault": plan,
+						"fault_free_trace": traceStrings(prefixTrace), "results": pres, "detail": v.detail,
+					}
+				})
+			}
+
+			if poisoned {
+				continue // the faulted prefix ended in a panic/deadlock (reported above): nothing can follow
+			}
+
+			fkey := ft.key()
+			tlen := len(ft.trace)
+
+			for _, o := range applicable {
+				ft.trace = ft.trace[:tlen]
+				ft.nsteps = len(prefix)
+
+				fr := ft.Step(o)
+				if fr.Outcome == "n/a" {
+					continue // the object the letter needs does not exist after the failure
+				}
+
+				r.FaultRuns++
+				r.BasePanics += ft.basePanics
+				ft.basePanics = 0
+				r.Injected[int(prefixTrace[k].Fn)]++
+
+				if class != "" {
+					r.Classes[class]++
+				}
+
+				for _, v := range fr.Viols {
+					v := v
+					hist := append(append([]int{}, prefix...), o)
+					res := append(append([]string{}, presults...), ft.lastRender)
+					faulted := traceStrings(ft.trace)
+					book.add(v.Sig, func() any {
+						return map[string]any{
+							"system": ok.baseName, "plan": "fault", "history": histStrings(ok, hist), "fault": plan,
+							"fault_free_trace": traceStrings(fulls[o]), "faulted_trace": faulted,
+							"results": res, "detail": v.Detail,
+						}
+					})
+				}
+
+				if fr.Rebuild || fr.Broken || ft.key() != fkey {
+					if err := setup(nil); err != nil {
+						r.Err = err.Error()
+
+						return
+					}
+
+					if k2 := ft.key(); k2 != fkey {
+						r.Err = fmt.Sprintf("replay divergence: faulted prefix %v (k=%d %s) reached a different state on re-execution", histStrings(ok, prefix), k, en)
+
+						return
+					}
+				}
 			}
 		}
 	}
@@ -440,6 +576,10 @@ func newFaultEngine(base string) *faultEngine {
 		Covered: map[avfs.FnVFS]int{}, Injected: map[avfs.FnVFS]int{}, Invoked: map[avfs.FnVFS]bool{},
 		Classes: map[string]int{}, Outcomes: map[string]int{}, TraceLens: map[int]int{},
 	}
+}
+
+func (fe *faultEngine) workLeft() float64 {
+	return float64(len(fe.frontier)) * float64(fe.probe.NumOps())
 }
 
 // runLevel executes all histories of length level+1 (every prefix of the
